@@ -91,15 +91,16 @@ def histories(sx, B):
                 sx.claim(bool(np.all(np.isinf(p))), "get_point is undefined (inf) for an unpositioned residue")
         queries = list(QUERY) if not big else [QUERY[0], QUERY[1], np.array([1.3 + 0.11 * 5 + 0.03, 1.2 + 0.11 * 7, 1.1 + 0.11 * 2])]
         for qi, q in enumerate(queries):
-            for excl in ([], [1]):
-                got = eng.compute_force_point(q, 0, 0, exclude=excl)
-                want = brute_force(eng, vols, positioned, q, 0, 0, set((0, e) for e in excl), types)
+            # queried on behalf of residues of two different types (sizes), one after the other on the same engine
+            for qnode, excl in (((0, []), (0, [1]), (1, [])) if big else ((0, []), (0, [1]), (1, []), (1, [0]), (0, []))):
+                got = eng.compute_force_point(q, 0, qnode, exclude=excl)
+                want = brute_force(eng, vols, positioned, q, 0, qnode, set((0, e) for e in excl), types)
                 same = (np.all(np.isinf(np.atleast_1d(got))) and np.all(np.isinf(np.atleast_1d(want)))) or \
                        (np.all(np.isfinite(np.atleast_1d(got))) and np.all(np.isfinite(np.atleast_1d(want)))
                         and np.allclose(np.zeros(3) + got, want, rtol=1e-9, atol=1e-9))
                 sx.claim(bool(same), "force equals the brute-force minimum-image reference",
-                         lambda: "after %s, query %r excl %r: %r expected %r; positioned %r" % (
-                             where, q, excl, got, want, {k: v for k, v in positioned.items() if k[0] < 2}))
+                         lambda: "after %s, query %r for residue %d excl %r: %r expected %r; positioned %r" % (
+                             where, q, qnode, excl, got, want, {k: v for k, v in positioned.items() if k[0] < 2}))
         return True
 
     if not check("construction"):
